@@ -245,10 +245,11 @@ func collectTVarFTypeWithSet(visited SSet, ft FType) []string {
 	case FType_FRecord:
 		rt := _v9.Value
 		tres := frt.Pipe(rt.Targs, (func(_r0 []FType) []string { return slice.Collect(recurse, _r0) }))
-		return frt.IfElse(SSetHasKey(visited, rt.Name), (func() []string {
+		rkey := rtToKey(rt)
+		return frt.IfElse(SSetHasKey(visited, rkey), (func() []string {
 			return tres
 		}), (func() []string {
-			SSetPut(visited, rt.Name)
+			SSetPut(visited, rkey)
 			ri := lookupRecInfo(rt)
 			fres := frt.Pipe(frt.Pipe(ri.Fields, (func(_r0 []NameTypePair) []FType {
 				return slice.Map(func(_v1 NameTypePair) FType {
@@ -259,7 +260,7 @@ func collectTVarFTypeWithSet(visited SSet, ft FType) []string {
 		}))
 	case FType_FUnion:
 		ut := _v9.Value
-		uname := utName(ut)
+		uname := uniToKey(ut)
 		return frt.IfElse(SSetHasKey(visited, uname), (func() []string {
 			return slice.New[string]()
 		}), (func() []string {
@@ -454,17 +455,18 @@ func transTVFTypeWithSet(visited SSet, transTV func(TypeVar) FType, ftp FType) F
 		return frt.Pipe(ParamdType{Name: pt.Name, Targs: nts}, New_FType_FParamd)
 	case FType_FRecord:
 		rt := _v17.Value
-		return frt.IfElse(SSetHasKey(visited, rt.Name), (func() FType {
+		rkey := rtToKey(rt)
+		return frt.IfElse(SSetHasKey(visited, rkey), (func() FType {
 			return ftp
 		}), (func() FType {
-			SSetPut(visited, rt.Name)
+			SSetPut(visited, rkey)
 			nrt := transRecType(recurse, rt)
-			SSetRemove(visited, rt.Name)
+			SSetRemove(visited, rkey)
 			return New_FType_FRecord(nrt)
 		}))
 	case FType_FUnion:
 		ut := _v17.Value
-		uname := utName(ut)
+		uname := uniToKey(ut)
 		return frt.IfElse(SSetHasKey(visited, uname), (func() FType {
 			return ftp
 		}), (func() FType {
